@@ -766,6 +766,48 @@ def c13_facts(repo, sk, facts, notes):
 # ===== C13 block end =====
 
 
+# ===== C19 block begin (JSON sink key/value appends, named-args template scanner; add-only, owned by props/c19.py) =====
+def c19_facts(repo, sk, facts, notes):
+    """which variant of M-NA stands for the code: (1) detail::JsonSink::generate_json_message appends every key and
+    value through a helper that writes a newline as the two characters backslash n (c19_json_escapes_newlines);
+    (2) BackendWorker::_process_named_args_format_message takes the FIRST '}' after the '{' of a placeholder as its
+    close bracket, without skipping a following "}}" (c19_scan_first_close_bracket). Besides the skeletons, the
+    whole body text (comments stripped, white space normalised) of the helper and of the scanner is emitted, so that
+    TieC19.v pins them to the text the model was written against."""
+    def body_text(docs, path, name):
+        m = find_method(docs, name)
+        if m is None:
+            return []
+        body = [c for c in m['inner'] if isinstance(c, dict) and c.get('kind') == 'CompoundStmt'][0]
+        return [node_text(body, path)]
+    p = os.path.join(repo, 'include', 'quill', 'sinks', 'JsonSink.h')
+    docs = run_clang('#include "quill/sinks/JsonSink.h"\n', 'JsonSink', repo)
+    sk['c19_json_write_log'] = method_skeleton(docs, p, 'write_log') or []
+    sk['c19_json_generate_json_message'] = method_skeleton(docs, p, 'generate_json_message') or []
+    sk['c19_json_append_escaping_newlines'] = method_skeleton(docs, p, '_append_escaping_newlines') or []
+    sk['c19_json_append_escaping_newlines_text'] = body_text(docs, p, '_append_escaping_newlines')
+    g = [l.strip() for l in sk['c19_json_generate_json_message']]
+    loop = ['FOR for (auto const& [key, value] : *named_args)',
+            'EXPR _json_message.append(std::string_view{",\\""})', 'EXPR _append_escaping_newlines(key)',
+            'EXPR _json_message.append(std::string_view{"\\":\\""})', 'EXPR _append_escaping_newlines(value)',
+            'EXPR _json_message.append(std::string_view{"\\""})']
+    helper = ("{ size_t start = 0; for (size_t pos = 0; (pos = text.find('\\n', start)) != std::string_view::npos; start = pos + 1) "
+              "{ _json_message.append(text.substr(start, pos - start)); _json_message.append(std::string_view{\"\\\\n\"}); } "
+              "_json_message.append(text.substr(start)); }")
+    facts['c19_json_escapes_newlines'] = bool(len(g) == 8 and g[1] == 'IF named_args' and g[2:] == loop and
+                                              sk['c19_json_append_escaping_newlines_text'] == [helper])
+    p = os.path.join(repo, 'include', 'quill', 'backend', 'BackendWorker.h')
+    docs = run_clang('#include "quill/backend/BackendWorker.h"\n', 'BackendWorker::_process_named_args_format_message', repo)
+    sk['c19_scan'] = method_skeleton(docs, p, '_process_named_args_format_message') or []
+    sk['c19_scan_text'] = body_text(docs, p, '_process_named_args_format_message')
+    t = (sk['c19_scan_text'] or [''])[0]
+    facts['c19_scan_first_close_bracket'] = bool(
+        "size_t const close_bracket_pos = fmt_template.find_first_of('}', open_bracket_pos + 1); "
+        "if (close_bracket_pos != std::string::npos) {" in t and t.count('close_bracket_pos =') == 1
+        and 'close_bracket_2_pos' not in t and 'while (close_bracket_pos' not in t)
+# ===== C19 block end =====
+
+
 def main():
     repo = REPO; out = os.path.join(os.path.dirname(os.path.abspath(__file__)), '..', 'coq', 'gen', 'SrcFacts.v')
     a = sys.argv[1:]
@@ -781,6 +823,7 @@ def main():
     c12d_facts(repo, sk, facts, notes)   # C12d block
     c17_facts(repo, sk, facts, notes)   # C17 block
     c13_facts(repo, sk, facts, notes)   # C13 block
+    c19_facts(repo, sk, facts, notes)   # C19 block
     txt = emit(sk, facts, notes, os.path.normpath(out))
     if dump:
         for k in sorted(sk):
